@@ -213,15 +213,28 @@ def c_bmat(im) -> str:
     return "[" + ";".join(c_row(r) for r in im) + "]"
 
 
+def _periodic(idx):
+    """(prefix, cycle) with idx == (prefix + cycle * k)[:len(idx)], cycle as short as possible."""
+    n = len(idx)
+    for total in range(1, n + 1):                 # shortest prefix + cycle first
+        for per in range(1, total + 1):
+            pre = total - per
+            if all(idx[k] == idx[k - per] for k in range(pre + per, n)):
+                return idx[:pre], idx[pre:pre + per]
+    return idx, []
+
+
 def c_table(calls) -> str:
-    """The recorded calls without repetition: distinct (key, perm) pairs and the index of each call."""
+    """The recorded calls without repetition: distinct (key, perm) pairs and, for each call, its pair."""
     distinct, idx = {}, []
     for k, p in calls:
         key = (tuple(k), tuple(p))
         if key not in distinct:
             distinct[key] = len(distinct)
         idx.append(distinct[key])
-    return "[" + ";".join(f"({c_nats(k)},{c_nats(p)})" for k, p in distinct) + "] " + c_nats(idx)
+    pre, cy = _periodic(idx)
+    return ("[" + ";".join(f"({c_nats(k)},{c_nats(p)})" for k, p in distinct) + "] "
+            + f"(cyc {c_nats(pre)} {c_nats(cy)} {len(idx)})")
 
 
 def c_expected_blaze(out) -> str:
@@ -246,16 +259,31 @@ Set Printing Depth 1000000.
 """
 
 
+CHUNK = 16     # Coq elaborates a list literal in time quadratic in its length: keep the lists short
+
+
+def _chunked(ty, items, eqb) -> str:
+    lines = [HEADER]
+    names = []
+    for k in range(0, len(items), CHUNK):
+        nm = f"ch{k // CHUNK}"
+        names.append(nm)
+        lines.append(f"Definition {nm} : list ({ty}) := [\n" + ";\n".join(items[k:k + CHUNK]) + "\n].")
+    groups = []
+    for k in range(0, len(names), CHUNK):
+        gn = f"g{k // CHUNK}"
+        groups.append(gn)
+        lines.append(f"Definition {gn} : list ({ty}) := " + " ++ ".join(names[k:k + CHUNK]) + ".")
+    lines.append(f"Eval vm_compute in (failing_ {eqb} ({' ++ '.join(groups) if groups else '[]'}) 0%nat).")
+    return "\n".join(lines) + "\n"
+
+
 def blaze_shard(cases, outs) -> str:
-    lines = [HEADER, "Definition cases : list (option blaze_flat * option blaze_flat) := ["]
     items = []
     for c, o in zip(cases, outs):
         items.append(f"  (blaze_case {c_table(o['calls'])} {c_bmat(c['im'])} {c_nats(c['eids'])} {c_nats(c['qids'])},\n"
                      f"   {c_expected_blaze(o)})")
-    lines.append(";\n".join(items))
-    lines.append("].")
-    lines.append("Eval vm_compute in (failing_ opt_flat_eqb cases 0).")
-    return "\n".join(lines) + "\n"
+    return _chunked("option blaze_flat * option blaze_flat", items, "opt_flat_eqb")
 
 
 class Batch:
@@ -269,7 +297,7 @@ class Batch:
             self.items.append((tag, sh, tx, describe))
 
     def run(self, ctx, res: CorrResult):
-        results = core.run_cases(ctx, [it[2] for it in self.items], prefix="c16")
+        results = core.run_cases(ctx, [it[2] for it in self.items], prefix="c16", timeout=ctx.scale(900, 3000))
         res.shards += len(self.items)
         for k, ((tag, (cs, os_), _, describe), (ok, out)) in enumerate(zip(self.items, results)):
             if not ok:
@@ -379,11 +407,8 @@ def c_expected_seq(case, out) -> str:
 
 
 def seq_shard(cases, outs) -> str:
-    lines = [HEADER, "Definition cases : list ((seq_result * list eqn) * (seq_result * list eqn)) := ["]
-    lines.append(";\n".join(f"  (sequentialize {c_seq_model(c)},\n   {c_expected_seq(c, o)})" for c, o in zip(cases, outs)))
-    lines.append("].")
-    lines.append("Eval vm_compute in (failing_ seq_eqb cases 0).")
-    return "\n".join(lines) + "\n"
+    items = [f"  (sequentialize {c_seq_model(c)},\n   {c_expected_seq(c, o)})" for c, o in zip(cases, outs)]
+    return _chunked("(seq_result * list eqn) * (seq_result * list eqn)", items, "seq_eqb")
 
 
 # ------------------------------------------------------------------ Simultaneous.split_into_blocks / steady through real sources
@@ -582,7 +607,7 @@ def correspondence(ctx) -> CorrResult:
                 keyset.add(("b", repr(c["im"])))
             if sum(1 for b in o["blocks"] if len(b[0]) > 1) >= 1:
                 dist["inner_blocks_gt1"] += 1
-    shards = _shards(cases, outs, lambda c: 30 + len(c["im"]) ** 2, ctx.scale(16000, 60000))
+    shards = _shards(cases, outs, lambda c: 30 + len(c["im"]) ** 2, ctx.scale(16000, 20000))
     batch.add("blaze", shards, [blaze_shard(c, o) for c, o in shards], lambda c: f"{c['kind']}:n={len(c['im'])}")
     res.evaluations += len(cases)
     res.samples.append({"blaze": {"im": cases[-1]["im"], "eids": cases[-1]["eids"], "qids": cases[-1]["qids"]},
@@ -603,7 +628,7 @@ def correspondence(ctx) -> CorrResult:
         if o["before"]["im"] != want or o["before"]["lhs_names"] != [f"x{i}" for i in range(c["n"])]:
             res.disagreements.append(Disagreement("sequential:incidence_matrix", {"source": seq_source(c)},
                                                   want, o["before"]["im"]))
-    sshards = _shards(scases, souts, lambda c: 1, ctx.scale(130, 400))
+    sshards = _shards(scases, souts, lambda c: 1, ctx.scale(130, 300))
     batch.add("seq", sshards, [seq_shard(c, o) for c, o in sshards], lambda c: f"{c['kind']}:n={c['n']}")
     res.evaluations += nseq
     ctx.log(f"sequentialize: {nseq} models, {len(sshards)} shards, t={time.time() - t0:.1f}s")
